@@ -133,6 +133,23 @@ pub fn field_sequences(ctx: &'static Ctx) -> u64 {
         seqs.extend(next.iter().cloned());
         frontier = next;
     }
+    // long runs (an accumulated quantity - the running bit position, the entry count, the list's byte length - crossing
+    // 2^8, 2^16, 2^31, 2^32 and beyond): n entries of one width, n = 1..=40 and around 255 / 256 / 4096, for widths from 1 bit
+    // to the largest legal one, named and reserved, followed by a named and a reserved entry of ordinary width
+    for w in [1usize, 8, 255, 256, 65_535, 65_536, 1 << 20, 1 << 24, 1 << 27, (1 << 28) - 1] {
+        for n in (1..=40usize).chain([127, 128, 255, 256, 257, 300, 4095, 4096, 4097]) {
+            for named in [false, true] {
+                if n > 300 && named {
+                    continue;
+                }
+                let mut q: Vec<(Option<[u8; 4]>, usize)> = (0..n).map(|i| (if named { Some([b'R', b'A' + (i / 36 % 26) as u8, b'A' + (i % 26) as u8, b'0' + (i / 26 % 10) as u8]) } else { None }, w)).collect();
+                q.push((Some(*b"CTL0"), 32));
+                q.push((None, 8));
+                q.push((Some(*b"CTL1"), w));
+                seqs.push(q);
+            }
+        }
+    }
     let n = seqs.len() as u64;
     seqs.par_iter().enumerate().for_each(|(i, es)| {
         check(ctx, "Field", "entry sequences", &T::Field(if i % 2 == 0 { "FLD0".into() } else { "\\_SB_.FLD1".into() }, (i % 6) as u8, (i % 2) as u8, (i % 3) as u8, es.clone()));
@@ -296,6 +313,33 @@ pub fn run(ctx: &'static Ctx) {
     });
     let nfs = field_sequences(ctx);
     n4.fetch_add(nfs, Ordering::Relaxed);
+    // resource templates whose last (and only, and first) descriptor ends in every possible byte pair: an IO descriptor ends
+    // in (alignment, length), a Memory32Fixed in the two high bytes of its length - small and large item alike; plus the
+    // framing look-alikes of C10 in every position
+    {
+        use crate::aml::res::R;
+        let nt = AtomicU64::new(0);
+        (0..=0xffffu32).into_par_iter().for_each(|pair| {
+            let (a, b) = ((pair >> 8) as u8, pair as u8);
+            let io = R::Io(0x3f8, 0x3ff, a, b);
+            let mem = R::Mem32Fixed(true, 0xfed0_0000, (pair << 16) | 0x1000);
+            for t in [vec![io.clone()], vec![mem.clone()], vec![mem.clone(), io.clone()], vec![io.clone(), mem.clone()]] {
+                check(ctx, "ResourceTemplate", "last descriptor ends in every byte pair", &T::ResTemplate(t));
+            }
+            nt.fetch_add(4, Ordering::Relaxed);
+        });
+        let la = crate::props::c10::lookalikes();
+        let base = crate::props::c10::one_of_each();
+        for x in &la {
+            for y in &base {
+                for t in [vec![x.clone()], vec![y.clone(), x.clone()], vec![x.clone(), y.clone()], vec![y.clone(), x.clone(), y.clone()], vec![x.clone(), x.clone()]] {
+                    check(ctx, "ResourceTemplate", "framing look-alike descriptors", &T::ResTemplate(t));
+                    nt.fetch_add(1, Ordering::Relaxed);
+                }
+            }
+        }
+        ctx.engine("E4.template-tails", json!({"templates": nt.load(Ordering::Relaxed), "what": "IO(alignment, length) over all 65536 pairs and Memory32Fixed length high bytes over all 65536 pairs, alone / first / last; C10's look-alikes in every position"}));
+    }
     ctx.engine("E4.field-entry-sequences", json!({"sequences": nfs, "entry_alphabet": "named/reserved x widths {1,62,63,64,192,4095,4096,2^20}", "max_length": if quick { 3 } else { 4 }}));
     ctx.engine("E4.sizes", json!({"kinds": wr.len() + 2, "pads": pads.len(), "programs": n4.load(Ordering::Relaxed)}));
     let total = n1.load(Ordering::Relaxed) + n2.load(Ordering::Relaxed) + n3.load(Ordering::Relaxed) + n4.load(Ordering::Relaxed);
